@@ -461,11 +461,21 @@ def compare(ctx, reqs, pend):
             order, phsq = model["order"], model["phaseSq"]
             ok = len(order) == len(l) and np.array_equal(impl["rl"], np.array([float(v) for v, _ in order]))
             if ok:
+                # columns of equal singular value may come in any order (the model fixes Python's tuple order; a stable
+                # sort by value alone is as good): compare, per value, the set of (row, phase^2) of its columns
                 n = len(l)
-                want = np.zeros((n, n), dtype=np.complex128)
-                for k, (_, i) in enumerate(order):
-                    want[sigma.index(i), k] = phsq[i]           # N[r, r] = l[sigma[r]]: eigenvalue l[i] sits in row sigma^-1(i)
-                ok = err(impl["U"] ** 2, want) < 1e-12
+                U2 = impl["U"] ** 2
+                for val in {v for v, _ in order}:
+                    cols = [k for k, (v, _) in enumerate(order) if v == val]
+                    want = sorted((sigma.index(i), phsq[i]) for v, i in order if v == val)
+                    got = []
+                    for k in cols:
+                        nz = [r for r in range(n) if abs(U2[r, k]) > 1e-12]
+                        if len(nz) != 1 or abs(U2[nz[0], k] - round(U2[nz[0], k].real)) > 1e-12:
+                            ok = False
+                            break
+                        got.append((nz[0], int(round(U2[nz[0], k].real))))
+                    ok = ok and sorted(got) == want
             if not ok:
                 ctx.disagree("Decomp.takagiOrder vs takagi (real branch: values, column order, phases)", case,
                              model, dict(rl=impl["rl"].tolist(), U2=(impl["U"] ** 2).tolist()))
@@ -571,7 +581,8 @@ def check_mesh(dec, mesh, U, **kw):
     except Exception as e:                                      # noqa: BLE001
         return "structure", f"result not of the documented form ({type(e).__name__}: {str(e)[:60]})"
     e = err(q, U)
-    if not e < TOL:
+    # with a caller-supplied tolerance the special cases may neglect what is below it
+    if not e < max(TOL, 10 * max([TOL / 10] + [v for v in kw.values() if isinstance(v, float)])):
         return "reconstruction", f"|product - U| = {e:.3g}"
     return None
 
@@ -919,6 +930,15 @@ def oracle_options(ctx, dec):
             kind = str(rs.choice(["haar", "near_identity", "near_perm", "block", "givens"]))
             V = D.unitary_case(rs, n, kind)
             judge(ctx, dec, m, "opt:" + kind, V, dict(opts=tol_opts(m, float(rs.choice([1e-9, 1e-10, 1e-13])))))
+        # determinant phase (and leading entries) between the hard-wired 1e-10 of the SU(2) extraction and the caller's
+        # tolerance; 1e-6 is what ops.Interferometer passes
+        phi = 10.0 ** (-rs.uniform(6.5, 9.7))
+        W = D.haar(rs, n)
+        W = W * (np.linalg.det(W) ** (-1 / n)) * np.exp(1j * phi / n)
+        for m in ("sun_compact", "rectangular_compact", "triangular_compact"):
+            judge(ctx, dec, m, "opt:det-phase-below-tol", W, dict(opts=tol_opts(m, 1e-6)))
+            judge(ctx, dec, m, "opt:near-identity-loose-tol", D.unitary_case(rs, n, "near_identity"), dict(opts=tol_opts(m, 1e-6)))
+            judge(ctx, dec, m, "opt:near-perm-loose-tol", D.unitary_case(rs, n, "near_perm"), dict(opts=tol_opts(m, 1e-6)))
         S = D.symmetric_case(rs, n, "complex")
         asym = np.triu(np.ones((n, n)), 1)
         judge(ctx, dec, "reject:takagi", "opt:strict-tol", S + 1e-15 * asym * (1 + n), dict(opts=dict(tol=1e-16)))
